@@ -159,7 +159,8 @@ Definition before (a b : option sev) (delay : N) : bool :=
   | _, _ => false
   end.
 
-Definition since (a b : Z) : N := Z.to_N (a - b).
+(** `a.duration_since(b)` (saturating at zero; a Duration is at most Duration::MAX) *)
+Definition since (a b : Z) : N := N.min DMAX (Z.to_N (a - b)).
 
 Definition evq_peek (q : evq) (delay : N) (nowt : Z) : option sev * qid * N :=
   match evq_len q with
@@ -273,18 +274,21 @@ Definition WINDOW : N := NS.   (* Duration::from_secs(1) *)
 
 Definition netb_new (delay : N) (pps queue_pps : option N) : outcome netb :=
   let p := match pps with Some x => x | None => match queue_pps with Some y => y | None => USIZE_MAX end end in
-  let p32 := p mod 4294967296 in
-  if p32 =? 0 then Panic 8     (* division by zero: `window / pps as u32` *)
-  else Ok (mknetb 0 0 [] delay [] [] (WINDOW / p32) p).
+  (* `window / pps.clamp(1, u32::MAX) as u32` *)
+  let p32 := N.min (N.max p 1) 4294967295 in
+  Ok (mknetb 0 0 [] delay [] [] (WINDOW / p32) p).
 
-Fixpoint prune (fuel : nat) (w : list Z) (nowt : Z) : list Z :=
+Fixpoint prune (win : N) (fuel : nat) (w : list Z) (nowt : Z) : list Z :=
   match fuel, w with
-  | S f, oldest :: t => if WINDOW <? since nowt oldest then prune f t nowt else w
+  | S f, oldest :: t => if win <? since nowt oldest then prune win f t nowt else w
   | _, _ => w
   end.
 
-Definition window_add (w : list Z) (nowt : Z) : list Z * N :=
-  let w' := prune (S (length w)) (w ++ [nowt]) nowt in (w', N.of_nat (length w')).
+(** WindowCount::add for a window of width [win] *)
+Definition window_add_w (win : N) (w : list Z) (nowt : Z) : list Z * N :=
+  let w' := prune win (S (length w)) (w ++ [nowt]) nowt in (w', N.of_nat (length w')).
+
+Definition window_add (w : list Z) (nowt : Z) : list Z * N := window_add_w WINDOW w nowt.
 
 Definition net_sample (nb : netb) (nowt : Z) (is_client : bool) : netb * N * option N :=
   let '(w, count) := window_add (if is_client then n_cwin nb else n_swin nb) nowt in
@@ -316,6 +320,30 @@ Definition net_pop_agg (nb : netb) : netb :=
       else mknetb (n_cagg nb) (n_sagg nb + p_delay p) q (n_delay nb) (n_cwin nb) (n_swin nb) (n_added nb) (n_limit nb)
   | None => nb
   end.
+
+(** ** parse_trace (lib.rs): a line "t,s" queues a client NormalSent at t, a
+    line "t,r" a server NormalSent one network delay earlier; the queue's pps
+    limit is ten times the largest number of packets of one direction seen in
+    a 100 ms window (windows slide in FILE order). Times are relative to the
+    parser's starting instant. *)
+Definition PARSE_WINDOW : N := 100000000.
+
+Fixpoint parse_lines (tr : list (Z * bool)) (delay : N) (q : simq) (sw rw : list Z) (smax rmax : N)
+  : simq * N :=
+  match tr with
+  | [] => (q, N.max smax rmax * 10)
+  | (t, true) :: rest =>
+      let '(sw', m) := window_add_w PARSE_WINDOW sw t in
+      parse_lines rest delay (sq_push q (mksev TENormalSent t true false false false)) sw' rw (N.max smax m) rmax
+  | (t, false) :: rest =>
+      let '(rw', m) := window_add_w PARSE_WINDOW rw t in
+      parse_lines rest delay (sq_push q (mksev TENormalSent (t - Z.of_N delay) false false false false))
+                  sw rw' smax (N.max rmax m)
+  end.
+
+Definition parse_trace (tr : list (Z * bool)) (delay : N) : simq :=
+  let '(q, pps) := parse_lines tr delay (mksimq evq_empty evq_empty None) [] [] 0 0 in
+  mksimq (sq_c q) (sq_s q) (Some pps).
 
 (** ** delay.rs *)
 Definition MS : N := 1000000.
@@ -491,7 +519,9 @@ Definition act_on (sd : side) (is_client : bool) (a : taction) (t : Z) : outcome
   | TBlockOutgoing m _ dur by_ rp =>
       let block := (t + Z.of_N dur)%Z in
       let cur_until := match s_buntil sd with Some u => u | None => t end in
-      let sd' := if rp || (cur_until <? block)%Z then side_set_block sd (Some block) by_ else sd in
+      (* extending keeps the conjunction of the bypass flags; starting or replacing sets it *)
+      let by' := if rp then by_ else match s_buntil sd with None => by_ | Some _ => s_bbypass sd && by_ end in
+      let sd' := if rp || (cur_until <? block)%Z then side_set_block sd (Some block) by' else sd in
       Ok (sd', mksev (TEBlockingBegin m) t is_client false (s_bbypass sd') false)
   end.
 
@@ -549,11 +579,12 @@ Fixpoint pick_next (fuel : nat) (st : sim) (nowt : Z) : outcome (option sev * si
         | None => Panic P_UNWRAP
         end
       else if it <=? sa then
+        (* nothing can happen before the expiry: pick again as of then *)
         '(c', s', e) <- do_internal_timer c s (nowt + Z.of_N it)%Z ;;
-        pick_next fuel' (mksim (sq_push sq e) c' s' net (m_pos st)) nowt
+        pick_next fuel' (mksim (sq_push sq e) c' s' net (m_pos st)) (nowt + Z.of_N it)%Z
       else
         '(c', s', e) <- do_scheduled_action c s (nowt + Z.of_N sa)%Z ;;
-        pick_next fuel' (mksim (sq_push sq e) c' s' net (m_pos st)) nowt
+        pick_next fuel' (mksim (sq_push sq e) c' s' net (m_pos st)) (nowt + Z.of_N sa)%Z
   end.
 
 (** ** sim_network_stack *)
@@ -633,7 +664,7 @@ Fixpoint apply_actions (acts : list taction) (sd : side) (sq : simq) (nowt : Z) 
         | TUpdateTimer m dur rp =>
             cur <- get (s_timers sd) mi ;;
             let current := match cur with Some t => t | None => nowt end in
-            if rp || (current <? nowt + Z.of_N dur)%Z then
+            if rp || (match cur with None => true | Some _ => false end) || (current <? nowt + Z.of_N dur)%Z then
               Ok (side_set_timers sd (upd (s_timers sd) mi (Some (nowt + Z.of_N dur)%Z)),
                   sq_push sq (mksev (TETimerBegin m) nowt is_client false false false))
             else Ok (sd, sq)
